@@ -1,5 +1,8 @@
 //! C08: observe the calls `Parser::lr` / `lr_upto` make to the production actions.
-//! case:   `<kind> <hexsrc> <rec: 0|1> ; name@s-e name@s-e … ; …`     (one parse per `;` group)
+//! case:   `<kind> <hexsrc> <rec: 0|1> [costs=<c>,<c>,…] ; name@s-e name@s-e … ; …`     (one parse per `;` group)
+//!         `costs=…` (optional): BOTH builders (the `parse_actions` one and the `parse_map` one) get
+//!         `.term_costs(f)` with f(tidx) = the (tidx mod length)-th number of the list (1..=255); without it
+//!         `term_costs` is not called (default: every token costs 1)
 //!         a lexeme written `name@s-e!` is handed to the parser as a LEXER-SUPPLIED faulty lexeme
 //!         (`Lexeme::new_faulty`: public API, a lexer doing its own error handling may produce them)
 //! result: `<grammar dump> # <automaton dump> # X… ` then per usable input
@@ -10,8 +13,11 @@
 //!        <arg> = `l:<tok>:<s>:<e>:<0|1 faulty>` | `v:<k>` (value returned by call k)
 //!   ` # EA <tok>:<s>:<e> <stidx> <nrepairs> <repair>*`  one per ParseError (repairs()[0], the applied one:
 //!        `I<tidx>` | `D` | `S`)
+//!   ` # RA <seq>|<seq>|…`             right after each EA: ALL repair sequences of that error, steps joined by `,`,
+//!        sequences sorted (their order is hash order in the implementation); `RA * <n>` when there are more than 64
 //!   ` # TA <tree>`                    tree built by the recording actions (`-` if none)
-//!   ` # OG … # EG … # TG <tree>`      the same through parse_map (generic tree mode)
+//!   ` # OG … # EG … # RG … # TG <tree>`   the same through parse_map (generic tree mode)
+//!   ` # TC <cost of token 0> <cost of token 1> …`   (once per case, only with `costs=`) the cost function in effect
 //! trees: `(ridx kid …)` / `[tok s e f]`
 use gvh::common::*;
 use gvh::util::*;
@@ -96,7 +102,7 @@ fn mk_action<'b, 'input, 'p>(pidx: usize) -> Act<'b, 'input, 'p> {
     })
 }
 
-fn pp_errors(o: &mut String, tag: &str, errs: &[LexParseError<u32, LT>]) {
+fn pp_errors(o: &mut String, tag: &str, rtag: &str, errs: &[LexParseError<u32, LT>]) {
     for e in errs {
         match e {
             LexParseError::ParseError(e) => {
@@ -112,13 +118,49 @@ fn pp_errors(o: &mut String, tag: &str, errs: &[LexParseError<u32, LT>]) {
                         }
                     }
                 }
+                if e.repairs().len() > 64 {
+                    write!(o, " # {} * {}", rtag, e.repairs().len()).unwrap();
+                } else if !e.repairs().is_empty() {
+                    let mut seqs: Vec<String> = e
+                        .repairs()
+                        .iter()
+                        .map(|sq| {
+                            sq.iter()
+                                .map(|r| match r {
+                                    ParseRepair::Insert(t) => format!("I{}", usize::from(*t)),
+                                    ParseRepair::Delete(_) => "D".to_string(),
+                                    ParseRepair::Shift(_) => "S".to_string(),
+                                })
+                                .collect::<Vec<_>>()
+                                .join(",")
+                        })
+                        .map(|x| if x.is_empty() { "-".to_string() } else { x })
+                        .collect();
+                    seqs.sort();
+                    write!(o, " # {} {}", rtag, seqs.join("|")).unwrap();
+                }
             }
             LexParseError::LexError(_) => write!(o, " # {} lexerr", tag).unwrap(),
         }
     }
 }
 
-fn one_input(o: &mut String, b: &Built, toks: &[u32], spans: &[(usize, usize)], faulty: &[bool], rk: RecoveryKind) {
+fn one_input(
+    o: &mut String,
+    b: &Built,
+    toks: &[u32],
+    spans: &[(usize, usize)],
+    faulty: &[bool],
+    rk: RecoveryKind,
+    costs: &Option<Vec<u8>>,
+) {
+    // the SAME cost function for both modes (None: term_costs is not called)
+    let costf = |t: cfgrammar::TIdx<u32>| -> u8 {
+        match costs {
+            Some(c) if !c.is_empty() => c[usize::from(t) % c.len()],
+            _ => 1,
+        }
+    };
     // ---- parse_actions with one recording closure per production
     let log: RefCell<Vec<Call>> = RefCell::new(Vec::new());
     let lexer = ReplayLexer::with_spans(toks.to_vec(), spans.to_vec()).with_faulty(faulty.to_vec());
@@ -126,6 +168,7 @@ fn one_input(o: &mut String, b: &Built, toks: &[u32], spans: &[(usize, usize)], 
         let boxed: Vec<Act> = (0..usize::from(b.grm.prods_len())).map(mk_action).collect();
         let actions: Vec<&ActDyn> = boxed.iter().map(|x| &**x).collect();
         let pb = RTParserBuilder::<u32, LT>::new(&b.grm, &b.st).recoverer(rk);
+        let pb = if costs.is_some() { pb.term_costs(&costf) } else { pb };
         let (v, errs) = pb.parse_actions(&lexer, &actions, (MAGIC, &log));
         (v.map(|v| (v.id, v.tree)), errs)
     }));
@@ -144,7 +187,7 @@ fn one_input(o: &mut String, b: &Built, toks: &[u32], spans: &[(usize, usize)], 
         }
     }
     if let Ok((v, errs)) = &r {
-        pp_errors(o, "EA", errs);
+        pp_errors(o, "EA", "RA", errs);
         o.push_str(" # TA ");
         match v {
             Some((_, t)) => t.pp(o),
@@ -155,13 +198,14 @@ fn one_input(o: &mut String, b: &Built, toks: &[u32], spans: &[(usize, usize)], 
     let lexer = ReplayLexer::with_spans(toks.to_vec(), spans.to_vec()).with_faulty(faulty.to_vec());
     let r = catch(std::panic::AssertUnwindSafe(|| {
         let pb = RTParserBuilder::<u32, LT>::new(&b.grm, &b.st).recoverer(rk);
+        let pb = if costs.is_some() { pb.term_costs(&costf) } else { pb };
         pb.parse_map(&lexer, &|l: Lx| term(l), &|ridx, nodes| T2::Nonterm(u32::from(ridx), nodes))
     }));
     match r {
         Err(m) => write!(o, " # OG panic {}", m.replace('\n', " ").replace('#', "")).unwrap(),
         Ok((v, errs)) => {
             o.push_str(if v.is_some() { " # OG acc" } else { " # OG none" });
-            pp_errors(o, "EG", &errs);
+            pp_errors(o, "EG", "RG", &errs);
             o.push_str(" # TG ");
             match v {
                 Some(t) => t.pp(o),
@@ -180,6 +224,9 @@ fn main() {
         let kind = hs.next().unwrap().to_string();
         let src = unhex(hs.next().unwrap_or(""));
         let rec = hs.next().unwrap_or("0") == "1";
+        let costs: Option<Vec<u8>> = hs.next().and_then(|w| w.strip_prefix("costs=")).map(|l| {
+            l.split(',').filter(|x| !x.is_empty()).map(|x| x.parse::<u8>().unwrap_or(1).max(1)).collect()
+        });
         let b = match catch(std::panic::AssertUnwindSafe(|| build(&kind, &src))) {
             Err(m) => return format!("BUILDPANIC {}", m.replace('\n', " ")),
             Ok(Err(e)) => return e,
@@ -193,6 +240,14 @@ fn main() {
             Some(c) => write!(o, " # X {} {}", c.sr_len(), c.rr_len()).unwrap(),
         }
         write!(o, " # REC {}", if rec { 1 } else { 0 }).unwrap();
+        if let Some(c) = &costs {
+            if !c.is_empty() {
+                o.push_str(" # TC");
+                for t in 0..usize::from(b.grm.tokens_len()) {
+                    write!(o, " {}", c[t % c.len()]).unwrap();
+                }
+            }
+        }
         for inp in parts {
             let mut toks: Vec<u32> = Vec::new();
             let mut spans: Vec<(usize, usize)> = Vec::new();
@@ -242,7 +297,7 @@ fn main() {
                     o.push(if *f { '1' } else { '0' });
                 }
             }
-            one_input(&mut o, &b, &toks, &spans, &faulty, if rec { RecoveryKind::CPCTPlus } else { RecoveryKind::None });
+            one_input(&mut o, &b, &toks, &spans, &faulty, if rec { RecoveryKind::CPCTPlus } else { RecoveryKind::None }, &costs);
         }
         o
     });
